@@ -1017,6 +1017,8 @@ class unyt_array(np.ndarray):
         else:
             v = self.in_units(units, equivalence=equivalence, **kwargs).value
         if isinstance(self, unyt_quantity):
+            if v.dtype.kind == "c":
+                return complex(v)
             return float(v)
         else:
             return v
